@@ -1,6 +1,6 @@
 (* Proofs/SideC12.v — side conditions tying Model/Relay.v to the values regenerated from copy.go
    (Gen/C12.v), re-proved on every run, and the instantiation of the parametric theorems. *)
-From TX Require Import Model.Relay Proofs.Relay Proofs.RelayTcp Gen.C12.
+From TX Require Import Model.Relay Proofs.Relay Proofs.RelayTcp Proofs.RelayOwn Gen.C12.
 From Coq Require Import ZArith ZifyN ZifyNat ZifyBool.
 Open Scope N_scope.
 
@@ -146,6 +146,34 @@ Proof.
   split; [|split; reflexivity].
   repeat constructor; unfold valid_dgram; vm_compute; try reflexivity; discriminate.
 Qed.
+
+(* ---- UDP -> tunnel: who owns batchBuf ---- *)
+(* the state after ANY schedule of the main loop (thread 0) and the ticker goroutine (thread 1) *)
+Definition own_run (late : bool) (ds : list dgram) (sched : list nat) :=
+  run bsh (nat * bpc) (own_step late (N.to_nat UdpBatchBufSize)) (own_init ds) sched.
+
+Lemma c12_own_stream ds sched :
+  let s := own_run false ds sched in
+  (exists rest_, encode_all (ev_dgrams (map EvD ds)) = b_out (fst s) ++ rest_) /\
+  (forall p1, snd s = [(0%nat, BDone); (1%nat, p1)] -> b_out (fst s) = encode_all (ev_dgrams (map EvD ds))).
+Proof. exact (OInv_stream ds _ (own_all_schedules (N.to_nat UdpBatchBufSize) ds sched)). Qed.
+
+(* the variant that unlocks before the tunnel Write has returned: datagram "AA" is taken by the timed flush, the
+   lock is released, "BB" is framed over it and flushed by the main loop, then the stalled Write consumes what its
+   slice holds now — the tunnel sees BB BB, "AA" is gone *)
+Definition late_sched : list nat := [0; 0; 0; 1; 1; 0; 0; 0; 0; 0; 0; 1]%nat.
+Lemma c12_own_late_write_refuted :
+  let s := own_run true [[65; 65]; [66; 66]] late_sched in
+  snd s = [(0%nat, BDone); (1%nat, BIdle)] /\
+  b_out (fst s) = [0; 2; 66; 66; 0; 2; 66; 66] /\
+  b_out (fst s) <> encode_all (ev_dgrams (map EvD [[65; 65]; [66; 66]])).
+Proof. vm_compute. repeat split; try reflexivity. discriminate. Qed.
+
+(* ... the same schedule on the code as it is: the main loop's Lock() simply waits for the Write to return *)
+Lemma c12_own_same_schedule_ok :
+  let s := own_run false [[65; 65]; [66; 66]] (late_sched ++ [1; 0; 0; 0; 0; 0; 0]%nat) in
+  snd s = [(0%nat, BDone); (1%nat, BIdle)] /\ b_out (fst s) = [0; 2; 65; 65; 0; 2; 66; 66].
+Proof. vm_compute. split; reflexivity. Qed.
 
 (* ---- Bidirectional, instantiated with constants.CopyBufferSize ---- *)
 (* endpoint A wrapped as cfgA, endpoint B as cfgB; both accept every write *)
